@@ -92,7 +92,8 @@ class CheckC18(core.Check):
                             ct2 = ct + b"\x00"
                         elif var == "key":
                             k2 = bytes([key[0] ^ 1]) + key[1:]
-                        buf = rnd.choice([len(ct2) - 16, len(ct2), len(ct2) + 9, 70000]) if len(ct2) >= 16 else 100
+                        # output buffers: exact, 1..15 spare bytes (ring's copy path with slack), message length, larger
+                        buf = rnd.choice([len(ct2) - 16, len(ct2) - 16 + rnd.randrange(1, 16), len(ct2) - 16 + rnd.randrange(1, 16), len(ct2), len(ct2) + 9, 70000]) if len(ct2) >= 16 else 100
                         ops.append(("prim_dec", dict(res=res, choice=ci, key=k2, n=n2, ad=ad2, ct=ct2, buf=buf), ("dec", ci, k2, n2, ad2, ct2)))
                 for i in range(8 * mul):
                     key = rnd.randbytes(32)
